@@ -1,8 +1,14 @@
 import contextlib
 import errno
 import os
+import select
 import signal
 from typing import List, Optional, Tuple  # pylint: disable=unused-import
+
+
+# How long `SigchldHelper.wait()` blocks before it lets pending signal handlers
+# run again (seconds).
+_WAIT_POLL_INTERVAL_S = 0.1
 
 
 class SigchldHelper:
@@ -35,6 +41,14 @@ class SigchldHelper:
             self._read_pipe = None
 
     def wait(self) -> Tuple[int, int]:
+        # The wake-up byte is written by our Python-level SIGCHLD handler. If
+        # the signal is delivered after the interpreter's last signal check but
+        # before a blocking `os.read()` enters the kernel, the read is not
+        # interrupted and the handler would never get to run. So we wait with a
+        # timeout: each time it expires, pending handlers run before we block
+        # again.
+        while not select.select([self._read_pipe], [], [], _WAIT_POLL_INTERVAL_S)[0]:
+            pass
         _ = os.read(self._read_pipe, 1)
         return self._extract_any()
 
